@@ -412,14 +412,14 @@ def explore_outcomes(ddef, k, cap=4000):
             p = pending.pop()
             Exploring.script, Exploring.sizes = list(p), []
             try:
-                r = outcome(lambda: mk_dfa(ddef).random_word(k))
+                r = outcome(lambda: fresh(ddef).call('random_word', k))
             except NeedMore as e:          # raised through outcome()? outcome catches BaseException subclasses only of Exception
                 r = ("more", e.n)
             if r[0] == "err" and r[2] == "NeedMore":
                 # outcome() swallowed it: rerun without the wrapper to get the range size
                 Exploring.script, Exploring.sizes = list(p), []
                 try:
-                    mk_dfa(ddef).random_word(k)
+                    fresh(ddef).call('random_word', k)
                     return None
                 except NeedMore as e:
                     r = ("more", e.n)
@@ -458,7 +458,7 @@ def check_random(ctx, ddef, jobs, tag):
     wire = enc_dfa_roworder(d, st, sy)
     res = model_draws(ctx, wire, jobs)
     for (k, seed), (draws, mres, totals) in zip(jobs, res):
-        got = outcome(lambda: mk_dfa(ddef).random_word(k, seed=seed))
+        got = outcome(lambda: fresh(ddef).call('random_word', k, seed=seed))
         problems = []
         if got[0] == "ok":
             w = sy.word(got[1])
@@ -483,7 +483,7 @@ def check_random(ctx, ddef, jobs, tag):
             for i, c in enumerate(got[1]):
                 sub = dict(ddef)
                 sub["initial_state"] = q
-                t = mk_dfa(sub).count_words_of_length(k - i)
+                t = fresh(sub).call('count_words_of_length', k - i)
                 if i >= len(totals) or t != totals[i]:
                     problems.append(f"step {i}: implementation counts {t} words of length {k - i} from {q!r}, model total {totals[i:i + 1]}")
                     break
@@ -492,7 +492,7 @@ def check_random(ctx, ddef, jobs, tag):
         ctx.case(("rw", enc.tree(wire), k, seed), nontrivial=got[0] == "ok" and k >= 2 and totals[:1] and totals[0] >= 2,
                  sample={"dfa": repr(ddef), "k": k, "seed": seed, "draws": draws, "word": got[1] if got[0] == "ok" else got[2]})
         if problems:
-            nowords = mk_dfa(ddef).count_words_of_length(k) == 0
+            nowords = fresh(ddef).call('count_words_of_length', k) == 0
             conf = any("not an accepted word" in p for p in problems) or (got[0] == "err") != nowords
             ctx.violation("random_word disagrees: " + "; ".join(problems)[:1200],
                           {"kind": "random", "def": repr(ddef), "k": k, "seed": seed, "draws": draws, "tag": tag,
@@ -522,7 +522,7 @@ def check_uniform(ctx, ddef, k, tag, cap=4000):
         if len(nxt) + len(done) > cap:
             return False
         prefixes = nxt
-    words = [sy.word(w) for w in mk_dfa(ddef).words_of_length(k)]
+    words = [sy.word(w) for w in fresh(ddef).listed('words_of_length', k)]
     problems = []
     # (a) what the property states, decided on the implementation alone: over EVERY resolution of its integer
     #     random draws the result is an accepted word of length k and every such word has probability 1/count
@@ -601,6 +601,21 @@ def exhaustive_defs(nstates, sigma):
                      for q in range(nstates)}
             yield dict(states=set(range(nstates)), input_symbols=set(sigma), transitions=trans,
                        initial_state=0, final_states={q for q in range(nstates) if fin[q]}, allow_partial=True)
+
+
+def fresh(ddef):
+    """A fresh instance bound to a name by the caller's frame is needed for cached methods (the cached_method
+    package fails on temporaries); this helper keeps the object alive for the duration of one call."""
+    class Keep:
+        def __init__(self, d):
+            self.d = d
+
+        def call(self, name, *a, **kw):
+            return getattr(self.d, name)(*a, **kw)
+
+        def listed(self, name, *a, **kw):
+            return list(getattr(self.d, name)(*a, **kw))
+    return Keep(mk_dfa(ddef))
 
 
 def huge_count_probe(ctx):
